@@ -5,6 +5,7 @@ simulated store can flip bits, substitute / insert / delete bytes, tear
 fault := ["flip", bit] | ["trunc", n] | ["subst", off, byte] | ["ins", off, byte] | ["del", off]
        | ["field", name, hex-bytes]   (replace the field's content, same length or not)
        | ["garbage", hex-bytes]       (whole record replaced)
+       | ["tagflip"]                   (last bit of the record: the GCM tag in both layouts)
        | ["algsub", last OID arc, params kind, content length, last IV byte]   (algorithm substitution, multi-site)
 A stored record may suffer several faults (applied in order).
 """
@@ -20,6 +21,10 @@ def apply_fault(data: bytes, fault, offsets: t.Optional[dict] = None) -> bytes:
         bit = fault[1]
         if bit // 8 < len(b):
             b[bit // 8] ^= 0x80 >> (bit % 8)
+        return bytes(b)
+    if kind == "tagflip":
+        if b:
+            b[-1] ^= 0x01
         return bytes(b)
     if kind == "trunc":
         return bytes(b[: fault[1]])
